@@ -252,3 +252,11 @@ reg("C30", "model_checking", "TLA+ spec SecGroup (timer events E1-E11, forwardin
     "1000 ms / 100 ms windows plus random histories, and sends wrappers; every trace (callbacks caused, timer after each event, timer values sent, exceptions) must be a behaviour of the spec.",
     "Trusted: TLC, the virtual-time loop, the peer built from the library's own wrapper / notify writers (their octets are C28). Timer values below 2^31 ms.",
     "DESIGN.md section 5 C30")
+
+reg("C28", "exploration", "TLA+ reference of the KNX IP Secure CCM construction (AES-128, CBC-MAC, CTR; IpSecure.tla) evaluated by TLC on recorded wrapper / timer-notify / handshake octets of the real classes, anchored to the specification examples",
+    "The TLA+ reference first has to reproduce the KNX specification examples (wrapped routing indication, session response MAC, session authenticate MAC). Then every "
+    "recorded case is recomputed: wrappers of corpus frames under random keys, session ids, sequence information (limb boundaries, 2^48-1), serial numbers and tags must equal "
+    "the reference octet for octet and unwrap to the identical frame; every single-bit change of a wrapper, a wrong key and a wrong session id must be rejected; TimerNotify MACs "
+    "sent and the verdicts on changed notifies, the client's verdict on correct and changed SessionResponse MACs and the SessionAuthenticate MAC it produces must agree with the reference.",
+    "Trusted: TLC's evaluator; PBKDF2 and X25519 come from the cryptography package on both sides (not specified in TLA+).",
+    "DESIGN.md section 5 C28")
